@@ -38,6 +38,9 @@ def main():
         if a.what == "setup":
             setup()
             return 0
+        if a.what == "selftest":
+            import selftest
+            return selftest.run()
         if a.what not in PROPS:
             log("unknown property %s" % a.what)
             return 2
